@@ -29,6 +29,7 @@ import (
 	"sync"
 	"time"
 
+	"github.com/cespare/xxhash"
 	"github.com/siglens/siglens/pkg/ast/pipesearch"
 	"github.com/siglens/siglens/pkg/config"
 	eswriter "github.com/siglens/siglens/pkg/es/writer"
@@ -40,6 +41,7 @@ import (
 	"github.com/siglens/siglens/pkg/segment/writer"
 	"github.com/siglens/siglens/pkg/segment/writer/metrics"
 	serverutils "github.com/siglens/siglens/pkg/server/utils"
+	"github.com/siglens/siglens/pkg/utils"
 	vtable "github.com/siglens/siglens/pkg/virtualtable"
 	log "github.com/sirupsen/logrus"
 	"github.com/valyala/fasthttp"
@@ -481,7 +483,7 @@ func newSpec() *spec {
 		tables: map[int64]map[string]bool{}, alias: map[int64]map[string]map[string]bool{}, adir: map[int64]bool{0: true},
 		delPhase: map[int64]map[string]bool{}, recreated: map[int64]map[string]bool{}, unrot: map[int64]map[string]bool{}, zombies: map[int]bool{},
 		aliasEver: map[int64]map[string]map[string]bool{}, aliasCut: map[int64]map[string]bool{}, hadOpen: map[int64]map[string]bool{}}
-	for _, o := range orgs {
+	for _, o := range allOrgs {
 		s.tables[o] = map[string]bool{}
 		s.alias[o] = map[string]map[string]bool{}
 		s.delPhase[o] = map[string]bool{}
@@ -550,6 +552,30 @@ func (s *spec) resolve(X int64, n string) string {
 }
 
 var orgs = []int64{0, 1, 2}
+
+// orgs whose decimal ids are prefixes of each other, and index names that begin with the digits completing
+// another org's id: "<org><index>" coincides for (12, logs)/(1, 2logs), (73, 1-app)/(7, 31-app),
+// (123, x)/(12, 3x)/(1, 23x)
+var digitOrgs = []int64{1, 7, 12, 73, 123}
+var allOrgs = []int64{0, 1, 2, 7, 12, 73, 123}
+var digitIdx = map[int64][]string{
+	1:   {"2logs", "23x", "logs"},
+	12:  {"logs", "3x", "2logs"},
+	7:   {"31-app", "1-app"},
+	73:  {"1-app", "31-app"},
+	123: {"x", "3x"},
+}
+var digitNames = []string{"logs", "2logs", "23x", "3x", "x", "1-app", "31-app"}
+var digitCollisions = [][2]struct {
+	Org int64
+	Idx string
+}{
+	{{12, "logs"}, {1, "2logs"}},
+	{{73, "1-app"}, {7, "31-app"}},
+	{{123, "x"}, {12, "3x"}},
+	{{12, "3x"}, {1, "23x"}},
+	{{123, "x"}, {1, "23x"}},
+}
 var idxPool = map[int64][]string{
 	0: {"a", "ab", "a-b", "ab1"},
 	1: {"a", "ab", "a.b1", "aXb1"},
@@ -602,6 +628,7 @@ type opCtx struct {
 	viaCurOnly map[string]bool // named only through a current alias
 	viaRemoved map[string]bool // not named, but an alias that used to point to the table matches
 	cutAlias   map[string]bool // named through a current alias from which another index was removed
+	noSnap     bool            // delete without before/after snapshots (streams with other org sets)
 	hadOpen    map[string]bool // index of the org was deleted while it had unrotated data (stale columns until restart: known finding)
 	complete   bool            // the completeness side of the oracle applies to this op
 }
@@ -614,6 +641,7 @@ type gen struct {
 	stream       string
 	willRestart  bool
 	complete     bool // this stream promises completeness (no known-defect input)
+	noSnap       bool // deletes of this stream carry no snapshots
 	completePost bool // ... also after a restart (alias life-cycle streams: alias-form queries only)
 }
 
@@ -710,7 +738,7 @@ func (g *gen) ingest(X int64, name string, n int) {
 }
 
 func (g *gen) rotate() {
-	for _, o := range orgs {
+	for _, o := range allOrgs {
 		g.s.unrot[o] = map[string]bool{}
 	}
 	g.emit(Op{Kind: "rotate"}, nil)
@@ -777,12 +805,19 @@ func (g *gen) delete(X int64, expr string, rotateFirst bool) {
 	for t, v := range g.s.recreated[X] {
 		c.recreated[t] = v
 	}
+	c.noSnap = g.noSnap
 	for i, o := range orgs {
+		if g.noSnap {
+			break
+		}
 		c.snapBefore[i] = g.query("q_search", o, snapshotExpr)
 	}
 	g.emit(Op{Kind: "delete", Org: X, Expr: expr}, c)
 	defer func() {
 		for i, o := range orgs {
+			if g.noSnap {
+				break
+			}
 			c.snapAfter[i] = g.query("q_search", o, snapshotExpr)
 		}
 	}()
@@ -796,7 +831,7 @@ func (g *gen) delete(X int64, expr string, rotateFirst bool) {
 			}
 		}
 		delete(g.s.tables[X], t)
-		for _, o := range orgs {
+		for _, o := range allOrgs {
 			if g.s.unrot[o][t] {
 				g.s.hadOpen[o][t] = true
 			}
@@ -811,7 +846,7 @@ func (g *gen) restart() {
 	g.rotate0()
 	g.emit(Op{Kind: "restart"}, nil)
 	g.s.restarted = true
-	for _, o := range orgs {
+	for _, o := range allOrgs {
 		g.s.delPhase[o] = map[string]bool{}
 		g.s.recreated[o] = map[string]bool{}
 		g.s.hadOpen[o] = map[string]bool{}
@@ -836,7 +871,7 @@ func (g *gen) askIndex(X int64, t string) {
 	g.query(vhlib.Pick(g.r, []string{"q_search", "q_stats"}), X, "*")
 }
 func (g *gen) rotate0() {
-	for _, o := range orgs {
+	for _, o := range allOrgs {
 		g.s.unrot[o] = map[string]bool{}
 	}
 }
@@ -879,7 +914,14 @@ func genMain(r *vhlib.Rng) (*scenario, *spec) {
 			}
 		}
 	}
+	digitAt := -1
+	if r.Chance(70) {
+		digitAt = r.Intn(n)
+	}
 	for i := 0; i < n; i++ {
+		if i == digitAt {
+			g.digitBlock(r.Intn(len(digitCollisions)), r.Bool())
+		}
 		X := vhlib.Pick(r, orgs)
 		w := r.Intn(100)
 		switch {
@@ -1250,6 +1292,94 @@ func genMultiSegDelete(r *vhlib.Rng) (*scenario, *spec) {
 	return g.sc, g.s
 }
 
+// ---- ingest-side routing: orgs with multi-digit ids and index names that complete another org's id.
+// Each org must get exactly its own events back (two-sided oracle), in every query form, the column
+// listing and the index listing, also after rotation, delete and restart.
+func (g *gen) digitExpr(X int64) string {
+	r := g.r
+	switch w := r.Intn(100); {
+	case w < 45:
+		return vhlib.Pick(r, digitIdx[X])
+	case w < 65:
+		return "*"
+	case w < 85:
+		return vhlib.Pick(r, []string{"*logs", "2*", "*x", "*app", "3*", "*-app", "l*"})
+	default:
+		return vhlib.Pick(r, digitIdx[X]) + "," + vhlib.Pick(r, digitNames)
+	}
+}
+
+func (g *gen) digitBlock(pairIdx int, swap bool) {
+	r := g.r
+	c := digitCollisions[pairIdx]
+	a, b := c[0], c[1]
+	if swap {
+		a, b = b, a
+	}
+	if g.s.delPhase[a.Org][a.Idx] || g.s.delPhase[b.Org][b.Idx] {
+		return
+	}
+	g.ingest(a.Org, a.Idx, r.Range(1, 2))
+	g.ingest(b.Org, b.Idx, r.Range(1, 2))
+	if r.Chance(40) {
+		g.rotate()
+		g.ingest(b.Org, b.Idx, 1)
+	}
+	for _, x := range []struct {
+		Org int64
+		Idx string
+	}{a, b} {
+		g.query(vhlib.Pick(r, []string{"q_search", "q_stats", "q_spl"}), x.Org, x.Idx)
+		g.query(vhlib.Pick(r, []string{"q_search", "q_stats"}), x.Org, "*")
+		g.query("q_cols", x.Org, "*")
+		g.emit(Op{Kind: "q_list", Org: x.Org}, g.ctxFor(x.Org, "*"))
+	}
+}
+
+func genDigitOrgs(r *vhlib.Rng) (*scenario, *spec) {
+	g := &gen{r: r, s: newSpec(), sc: &scenario{Stream: "digit_orgs"}, complete: true, completePost: true, noSnap: true}
+	g.digitBlock(r.Intn(len(digitCollisions)), r.Bool())
+	n := r.Range(10, 18)
+	for i := 0; i < n; i++ {
+		X := vhlib.Pick(r, digitOrgs)
+		switch w := r.Intn(100); {
+		case w < 35:
+			t := vhlib.Pick(r, digitIdx[X])
+			if g.s.delPhase[X][t] {
+				continue
+			}
+			g.ingest(X, t, r.Range(1, 2))
+		case w < 45:
+			g.digitBlock(r.Intn(len(digitCollisions)), r.Bool())
+		case w < 75:
+			g.query(vhlib.Pick(r, qKinds), X, g.digitExpr(X))
+		case w < 80:
+			g.emit(Op{Kind: "q_list", Org: X}, g.ctxFor(X, "*"))
+		case w < 88:
+			g.rotate()
+		case w < 94:
+			t := vhlib.Pick(r, digitIdx[X])
+			if len(g.dspec(X, t)) == 1 && !g.otherOrgHas(X, t) {
+				g.delete(X, t, true)
+				g.query("q_search", X, t)
+				g.query("q_cols", X, t)
+			}
+		default:
+			if !g.s.restarted {
+				g.restart()
+			}
+		}
+	}
+	for _, o := range digitOrgs {
+		g.query("q_search", o, "*")
+		g.query("q_stats", o, "*")
+		g.query("q_cols", o, "*")
+		g.query("q_spl", o, strings.Join(digitIdx[o], ","))
+		g.emit(Op{Kind: "q_list", Org: o}, g.ctxFor(o, "*"))
+	}
+	return g.sc, g.s
+}
+
 // metrics stream: same metric names in all orgs; oracle only (the metrics store is not part of the Coq model)
 var metricNames = []string{"cpu", "mem", "cpu_total"}
 
@@ -1359,8 +1489,8 @@ var perClass = map[string]int{}
 
 func initCols() {
 	seen := map[string]bool{}
-	for _, o := range orgs {
-		names := append(append(append([]string{}, allIdx...), aliasPool[o]...), matcherNames...)
+	for _, o := range allOrgs {
+		names := append(append(append(append([]string{}, allIdx...), aliasPool[o]...), matcherNames...), digitNames...)
 		for _, n := range names {
 			c := colName(o, n)
 			if prev, ok := colRev[c]; ok && (prev[0] != strconv.FormatInt(o, 10) || prev[1] != n) {
@@ -1383,7 +1513,7 @@ func evalScenario(sum *vhlib.Summary, mu *sync.Mutex, si int, sc *scenario, obs 
 		}
 	}
 	tablesEver := map[int64]map[string]bool{}
-	for _, o := range orgs {
+	for _, o := range allOrgs {
 		tablesEver[o] = map[string]bool{}
 	}
 	for i, op := range sc.Ops {
@@ -1541,6 +1671,9 @@ func evalScenario(sum *vhlib.Summary, mu *sync.Mutex, si int, sc *scenario, obs 
 				inD[t] = true
 			}
 			for k := range orgs {
+				if c.noSnap {
+					break
+				}
 				before, after := obs[c.snapBefore[k]].Ids, obs[c.snapAfter[k]].Ids
 				aft := map[int]bool{}
 				for _, id := range after {
@@ -1719,6 +1852,7 @@ func main() {
 	mk(wrap(genAliasRestartOrg0), 2)
 	mk(wrap(genMatcher), 2)
 	mk(wrap(genMultiSegDelete), nKnown+2)
+	mk(wrap(genDigitOrgs), 2*nKnown)
 
 	// run
 	par := 6
@@ -1798,6 +1932,38 @@ func main() {
 	sum.WriteCaseFile(cfg.Out, "cases_c13_rx", "From SigM Require Import Base Tenant TenantCheck.\n",
 		"Definition rxs : list (name * name * N) := "+vhlib.CoqListNL(rxItems)+".\nDefinition gls : list (name * name * bool) := "+vhlib.CoqListNL(glItems)+".\n",
 		"check_rx rxs 0 ++ check_glob gls 0", len(rxItems)+len(glItems))
+	// the real utils.CreateStreamId against the model's formula and "ids equal iff (org, index) equal"
+	sidNames := append(append([]string{}, digitNames...), "a", "ab", "0a", "12", "-", "1-2")
+	var htbl, sobs []string
+	type sidp struct {
+		org int64
+		idx string
+		id  string
+	}
+	var sids []sidp
+	for _, n := range sidNames {
+		htbl = append(htbl, fmt.Sprintf("(%s, %d)", vhlib.CoqStr(n), xxhash.Sum64String(n)))
+	}
+	for _, o := range allOrgs {
+		for _, n := range sidNames {
+			id := utils.CreateStreamId(n, o)
+			sids = append(sids, sidp{o, n, id})
+			sobs = append(sobs, fmt.Sprintf("(%d, %s, %s)", o, vhlib.CoqStr(n), vhlib.CoqStr(id)))
+			sum.Count("stream_id_case")
+		}
+	}
+	for i := range sids {
+		for j := i + 1; j < len(sids); j++ {
+			if sids[i].id == sids[j].id {
+				sum.Fail("stream_id_collision", fmt.Sprintf("CreateStreamId gives org %d index %q and org %d index %q the same stream id %s",
+					sids[i].org, sids[i].idx, sids[j].org, sids[j].idx, sids[i].id),
+					map[string]interface{}{"a": []interface{}{sids[i].org, sids[i].idx}, "b": []interface{}{sids[j].org, sids[j].idx}, "stream_id": sids[i].id})
+			}
+		}
+	}
+	sum.WriteCaseFile(cfg.Out, "cases_c13_sid", "From SigM Require Import Base Tenant TenantCheck.\n",
+		"Definition htbl : list (name * N) := "+vhlib.CoqListNL(htbl)+".\nDefinition sobs : list (N * name * list N) := "+vhlib.CoqListNL(sobs)+".\n",
+		"check_sid htbl sobs", len(sobs))
 	sum.Write(cfg.Out)
 }
 
